@@ -1,9 +1,10 @@
 #!/usr/bin/env python3
 """seedstore.py <Cxx> <mN> <srcdir> [tier] [verify-line]: run the property's check against a confirmed seeded change and store it under seeded/Cxx-mN/"""
 import sys, os, json, shutil, subprocess, re
-prop, m, src = sys.argv[1], sys.argv[2], sys.argv[3]
+wid, m, src = sys.argv[1], sys.argv[2], sys.argv[3]      # wid: worktree id (C10 or C10b = second round for C10)
+prop = wid[:3]; mm = m if len(wid) == 3 else "m%d" % (int(m[1:]) + 2 * (ord(wid[3]) - ord("a")))
 tier = sys.argv[4] if len(sys.argv) > 4 else "quick"
-V = "/verif"; dst = os.path.join(V, "seeded", "%s-%s" % (prop, m)); os.makedirs(dst, exist_ok=True)
+V = "/verif"; dst = os.path.join(V, "seeded", "%s-%s" % (prop, mm)); os.makedirs(dst, exist_ok=True)
 for f in ("patch.diff", "demo.c"):
     shutil.copy(os.path.join(src, f), os.path.join(dst, f))
 am = json.load(open(os.path.join(src, "meta.json")))
@@ -13,14 +14,14 @@ keys = sorted(set(re.findall(r"^\s+key: (.*)$", out, re.M)))
 whats = re.findall(r"^\s+what: (.*)$", out, re.M)[:2]
 rc = r.returncode
 verify = None
-vf = "/tmp/mut/%s.verify" % prop
+vf = "/tmp/mut/%s.verify" % wid
 if os.path.exists(vf):
     for l in open(vf):
-        if l.startswith("%s/%s:" % (prop, m)): verify = l.strip()
+        if l.startswith("%s/%s:" % (wid, m)): verify = l.strip()
 meta = dict(property=prop, title=am.get("title"), description=am.get("description"), needs=am.get("needs"), files=am.get("files"),
             origin="independent sub-agent given only the property text and a scratch worktree of /repo; patch re-checked to apply on the current tree",
             confirmed_by_me=dict(builds=True, make_check="127/127 with the patch", demo_fails_with_patch=True, demo_passes_without=True,
                                  how="/tmp/mut/verify.sh in the scratch worktree: git apply, make, make -k check, compile+run demo.c, git checkout, make, run demo.c", verify_output=verify),
             detection=dict(command="./check %s --tier %s" % (prop, tier), exit_code=rc, violation_keys=keys[:12], n_keys=len(keys), first_report=whats))
 json.dump(meta, open(os.path.join(dst, "meta.json"), "w"), indent=1)
-print(prop, m, "rc=%d" % rc, "keys=%d" % len(keys), keys[:3])
+print(prop, mm, "rc=%d" % rc, "keys=%d" % len(keys), keys[:3])
